@@ -606,6 +606,33 @@ def _stringy(e: ast.AST) -> bool:
     return False
 
 
+
+def _module_callees(repo: Repo, f: FuncInfo) -> List[FuncInfo]:
+    """Module-level repo functions called from f: `name(..)` of the same module / imported by name, or
+    `alias.name(..)` where alias is an imported repo module."""
+    out: List[FuncInfo] = []
+    for c in calls(f.node, into_defs=True):
+        fn = c.func
+        target_mod, name = None, None
+        if isinstance(fn, ast.Name):
+            name = fn.id
+            tgt = f.module.imports.get(name)
+            if tgt:
+                mn, _, attr = tgt.rpartition(".")
+                target_mod, name = repo.by_modname.get(mn), attr
+            else:
+                target_mod = f.module
+        elif isinstance(fn, ast.Attribute) and isinstance(fn.value, ast.Name):
+            tgt = f.module.imports.get(fn.value.id)
+            target_mod, name = (repo.by_modname.get(tgt) if tgt else None), fn.attr
+        if target_mod is None or name is None:
+            continue
+        for g in repo.funcs.get(name, []):
+            if g.module is target_mod and g.cls is None and g.parent_fn is None and g not in out:
+                out.append(g)
+    return out
+
+
 def r2(ctx, regs: List[Reg], tmpl):
     repo = ctx.repo
     ctx.rule("C09.R2", "sign safety: flag/enum adapters never build or OR an enum.IntFlag from a possibly negative "
@@ -656,9 +683,15 @@ def r2(ctx, regs: List[Reg], tmpl):
                        f"enum.IntFlag(negative) is not value preserving on Python >= 3.11 ({why})")
     ctx.floor("C09.R2", "IntFlag constructions in IntFlag.decode", nctor, 1)
 
-    # (b) encode path: OR accumulates plain ints
+    # (b) encode path: OR accumulates plain ints (helpers in other repo modules that the encoder hands the value
+    # to are part of the path)
     nor = 0
-    for f in class_methods_reachable(repo, enc, depth=2):
+    enc_fns = list(class_methods_reachable(repo, enc, depth=2))
+    for g in list(enc_fns):
+        for h in _module_callees(repo, g):
+            if h not in enc_fns:
+                enc_fns.append(h)
+    for f in enc_fns:
         plain_cache: Dict[str, bool] = {}
 
         def plain(e, f=f, busy=()):
@@ -814,6 +847,61 @@ class _ProbeRepo:
         return self.m
 
 
+
+def _self_checking_decode(repo: Repo, k: ClassInfo) -> bool:
+    """decode(raw, ..) contains `if self.encode(<text>, ..) != raw: return raw` (or the == form with the text
+    returned inside), and every value it returns is that checked text or the raw parameter."""
+    dec = repo.lookup_method(k, "decode")
+    if dec is None or len(dec.node.args.args) < 2:
+        return False
+    raw = dec.node.args.args[1].arg
+    checked: Set[str] = set()
+    for n in walk(dec.node):
+        if not (isinstance(n, ast.Compare) and len(n.ops) == 1 and isinstance(n.ops[0], (ast.NotEq, ast.Eq))):
+            continue
+        sides = [n.left, n.comparators[0]]
+        call = next((x for x in sides if isinstance(x, ast.Call) and ap(x.func) == "self.encode" and x.args
+                     and isinstance(x.args[0], ast.Name)), None)
+        other = next((x for x in sides if x is not call), None)
+        if call is None or not (isinstance(other, ast.Name) and other.id == raw):
+            continue
+        checked.add(call.args[0].id)
+    if not checked:
+        return False
+    # the guarding ifs: `if self.encode(text, ..) != raw: return raw` (mismatch leaves with the raw value)
+    guards = []
+    for n in walk(dec.node):
+        if isinstance(n, ast.If) and isinstance(n.test, ast.Compare) and len(n.test.ops) == 1 \
+                and isinstance(n.test.ops[0], ast.NotEq) \
+                and any(isinstance(x, ast.Call) and ap(x.func) == "self.encode" for x in [n.test.left, n.test.comparators[0]]) \
+                and len(n.body) >= 1 and isinstance(n.body[-1], ast.Return) and isinstance(n.body[-1].value, ast.Name) \
+                and n.body[-1].value.id == raw and not n.orelse:
+            guards.append(n)
+    cfg = CFG(dec.node)
+    guard_nodes = {x for x in cfg.nodes if any(x.ast is g for g in guards)}
+    for r in [x for x in walk(dec.node) if isinstance(x, ast.Return)]:
+        v = r.value
+        if isinstance(v, ast.Name) and v.id == raw:
+            continue
+        if isinstance(v, ast.Name) and v.id in checked:
+            good = False
+            # syntactic dominance by the == / != fact ...
+            for e, pol in facts(r, dec.node):
+                if isinstance(e, ast.Compare) and len(e.ops) == 1 and any(
+                        isinstance(x, ast.Call) and ap(x.func) == "self.encode" for x in [e.left, e.comparators[0]]):
+                    if isinstance(e.ops[0], ast.NotEq) and not pol or isinstance(e.ops[0], ast.Eq) and pol:
+                        good = True
+            # ... or every path to this return runs through a guard whose mismatch branch has left the function
+            if not good and guard_nodes:
+                rn = [x for x in cfg.nodes if x.ast is r]
+                reach = cfg.reachable([cfg.entry], avoid=lambda x: x in guard_nodes, exc=True)
+                good = bool(rn) and not any(x in reach for x in rn)
+            if good:
+                continue
+        return False
+    return True
+
+
 def r3(ctx):
     repo = ctx.repo
     ctx.rule("C09.R3", "date codecs never consult the process time zone (tzlint: naive fromtimestamp / .timestamp() "
@@ -826,11 +914,35 @@ def r3(ctx):
     rels = [r for r in TZ_MODULES if r in repo.modules]
     ctx.require(TEMPLATES in rels and SERMOD in rels, "codec modules vanished")
     n = 0
+    checked_cls: Dict[str, bool] = {}
+    zone_dep: Dict[str, Tuple[ClassInfo, FuncInfo, ast.AST]] = {}
     for fi, node, kind, ok, msg in tzlint.tz_sites(repo, rels):
         n += 1
         mod = fi.module if fi is not None else None
         where = f"{mod.rel}:{node.lineno}" if mod is not None else f"?:{node.lineno}"
+        if not ok and fi is not None and fi.cls is not None and fi.name in ("decode", "encode") \
+                and _is_subclass(repo, fi.cls, "Adapter"):
+            # a codec pair whose decode() verifies its own text with encode() is zone-proof by construction:
+            # whatever the local zone does to the text, only a text that means the stamp is handed out
+            zone_dep.setdefault(fi.cls.qual, (fi.cls, fi, node))
+            if fi.cls.qual not in checked_cls:
+                checked_cls[fi.cls.qual] = _self_checking_decode(repo, fi.cls)
+            if checked_cls[fi.cls.qual]:
+                ok = True
+                msg = ("zone-dependent text, but decode() only hands it out after encode() mapped it back to the "
+                       "stamp (anything else stays a plain number)")
         ctx.ob("C09.R3", tzlint.site_key(fi, node, kind), ok, where, msg)
+    ctx.rule("C09.R14", "an adapter whose text form depends on the process time zone hands the text out only after "
+                        "checking that encode() maps it back to the wire value (else the plain number)")
+    for q, (k, fi, node) in sorted(zone_dep.items()):
+        dec = repo.lookup_method(k, "decode")
+        ctx.ob("C09.R14", f"{k.name}.decode: zone-dependent text is verified against encode() before it is handed out",
+               checked_cls.get(q, False), dec.where if dec is not None else ctx.w(k.module, k.node),
+               f"{fi.qual} goes through local time ({norm(node)[:60]}): two stamps of a repeated DST hour print the same "
+               f"text and the second re-encodes an hour early; the last local hours of year 9999 print a text encode() "
+               f"cannot take - without the check the decoded value does not encode back to the wire value")
+    if not zone_dep:
+        ctx.ob("C09.R14", "no adapter with a zone-dependent text form", True, TEMPLATES)
     ctx.ob("C09.R3", "tzlint probe (4 flagged idioms, 3 accepted idioms) recognised", True, "hipposa/rules/c09.py")
     ctx.stats["C09.R3.date api sites"] = n
 
@@ -1343,13 +1455,15 @@ class _CacheModel:
                         continue
                     if st.kind in ("setitem", "augsetitem") or (st.kind == "mutcall" and st.method in self._FILL):
                         kinds.add("store")
-                    elif st.kind == "delitem" or (st.kind == "mutcall" and st.method in self._INVAL) or st.kind == "assign":
+                    elif (st.kind == "mutcall" and st.method == "clear") or st.kind == "assign":
+                        kinds.add("inval-all")
+                    elif st.kind == "delitem" or (st.kind == "mutcall" and st.method in self._INVAL):
                         kinds.add("inval")
-            kind = "store" if "store" in kinds else "inval" if "inval" in kinds else None
+            kind = "store" if "store" in kinds else "inval-all" if "inval-all" in kinds else "inval" if "inval" in kinds else None
         self._mcache[key] = kind
         return kind
 
-    def ops(self, f: FuncInfo) -> List[Tuple[ast.AST, str, ast.AST]]:
+    def ops(self, f: FuncInfo, _depth: int = 0) -> List[Tuple[ast.AST, str, ast.AST]]:
         """(statement, 'inval'|'store', node) for every cache operation in f."""
         out = []
         seen = set()
@@ -1360,6 +1474,8 @@ class _CacheModel:
             kind = None
             if st.kind in ("setitem", "augsetitem") or (st.kind == "mutcall" and st.method in self._FILL):
                 kind = "store"
+            elif (st.kind == "mutcall" and st.method == "clear") or (st.kind == "assign" and st.path.count(".") == 1):
+                kind = "inval-all"
             elif st.kind == "delitem" or (st.kind == "mutcall" and st.method in self._INVAL) or st.kind == "assign":
                 kind = "inval"
             if kind:
@@ -1367,6 +1483,12 @@ class _CacheModel:
                 seen.add(id(st.node))
         for c in calls(f.node, into_defs=True):
             if id(c) in seen or not isinstance(c.func, ast.Attribute):
+                continue
+            if isinstance(c.func.value, ast.Name) and c.func.value.id == "self" and _depth < 2:
+                m = self.repo.lookup_method(self.blk, c.func.attr)
+                if m is not None and m is not f and m.name not in ("__setitem__", "serialize_var", "deserialize_var"):
+                    for _stmt, kind, _node in self.ops(m, _depth + 1):
+                        out.append((enclosing_stmt(c), kind, c.func))
                 continue
             root = self.root_of(ap(c.func.value))
             if root is None or (ap(c.func.value) or "").count(".") != 1:
@@ -1379,6 +1501,11 @@ class _CacheModel:
     def membership_test(self, t: ast.AST) -> bool:
         return isinstance(t, ast.Compare) and len(t.ops) == 1 and isinstance(t.ops[0], (ast.In, ast.NotIn)) \
             and self.root_of(ap(t.comparators[0])) is not None
+
+    def emptiness_test(self, t: ast.AST) -> bool:
+        """truth value of the cache itself (`if self._ser_cache:` / `if not self._ser_cache: return`)"""
+        p = ap(t)
+        return p is not None and p.count(".") == 1 and "(" not in p and self.root_of(p) is not None
 
 
 def r5(ctx):
@@ -1398,7 +1525,8 @@ def r5(ctx):
         if not raw:
             continue
         cfg = CFG(f.node)
-        inval_stmts = {id(stmt) for stmt, kind, _ in cm.ops(f) if kind == "inval"}
+        inval_stmts = {id(stmt) for stmt, kind, _ in cm.ops(f) if kind in ("inval", "inval-all")}
+        all_nodes_ids = {id(stmt) for stmt, kind, _ in cm.ops(f) if kind == "inval-all"}
         inval_nodes = {n for n in cfg.nodes if n.ast is not None and id(n.ast) in inval_stmts}
         # a membership test of the cache discharges as well when its "present" side leads to the drop
         # (`if key in cache: pop` / `if key not in cache: return` ... pop): an absent entry needs no drop
@@ -1408,9 +1536,12 @@ def r5(ctx):
             t, neg = a.test, False
             if isinstance(t, ast.UnaryOp) and isinstance(t.op, ast.Not):
                 t, neg = t.operand, True
-            if not cm.membership_test(t):
+            if cm.membership_test(t):
+                present_in_body = isinstance(t.ops[0], ast.In) != neg
+            elif cm.emptiness_test(t):
+                present_in_body = not neg
+            else:
                 continue
-            present_in_body = isinstance(t.ops[0], ast.In) != neg
             from ..core import always_exits, _block_of
             if present_in_body:
                 side = a.body
@@ -1424,6 +1555,8 @@ def r5(ctx):
             if any(id(y) in inval_stmts for x in side for y in ast.walk(x)):
                 for n in cfg.nodes_for(a):
                     inval_nodes.add(n)
+            if cm.emptiness_test(t) and any(id(y) in all_nodes_ids for x in side for y in ast.walk(x)):
+                all_nodes_ids.add(id(a))         # an empty cache needs no clearing
         for s in raw:
             nraw += 1
             stmt = enclosing_stmt(s.node)
@@ -1442,6 +1575,20 @@ def r5(ctx):
                    "a path stores a new raw value and returns with the old decoded value still cached: "
                    "deserialize_var would keep answering with the stale object",
                    path=cfg.describe_path(wit) if wit else None)
+            # ... and of every other variable: a decoded form may have been selected by this one (ENUM_FIELD /
+            # FLAG_FIELD / ctx.<sibling>), so only a whole-cache invalidation keeps deserialize_var truthful
+            whole_nodes = {n for n in cfg.nodes if n.ast is not None and id(n.ast) in all_nodes_ids}
+            ok2 = True
+            for n in [x for x in cfg.nodes if x.ast is stmt]:
+                after = cfg.path_exists([n], lambda x: x is cfg.exit, avoid=lambda x: x in whole_nodes, exc=False)
+                if after is not None and n in cfg.reachable([cfg.entry], avoid=lambda x: x in whole_nodes, exc=False):
+                    ok2 = False
+            ctx.ob("C09.R5", f"{f.qual}: raw store {norm(s.target)} drops the decoded values of the whole block", ok2,
+                   ctx.w(f, s.node),
+                   "only the assigned variable's cache entry is dropped, but the decoded form of other variables can have "
+                   "been selected by it (PCode -> State, Type -> TypeData, ParamType -> ParamData): deserialize_var keeps "
+                   "answering with a value decoded under the old selector, and serialize_var(deserialize_var()) rewrites "
+                   "the untouched wire value")
     ctx.floor("C09.R5", "raw stores into Block.vars", nraw, 1)
     # raw stores from outside the class bypass the cache
     for f in repo.all_funcs:
@@ -1464,7 +1611,7 @@ def r5(ctx):
     ctx.ob("C09.R5", "Block.serialize_var stores the raw serialized value", bool(raw_st), sv.where,
            "no store of the serialized value into the block")
     raw_nodes = {n for n in cfg.nodes for s in raw_st if n.ast is enclosing_stmt(s.node)}
-    inval = {n for n in cfg.nodes for stmt, kind, _ in ops if kind == "inval" and n.ast is stmt}
+    inval = {n for n in cfg.nodes for stmt, kind, _ in ops if kind in ("inval", "inval-all") and n.ast is stmt}
     for stmt, node in cache_st:
         cnodes = [n for n in cfg.nodes if n.ast is stmt]
         ok = True
